@@ -1,5 +1,5 @@
 (* Hand-written models (over any Num instance) of
-     lib.make_grid, ConformationContainer.calculate_charge / calculate_folding_energy,
+     ConformationContainer.calculate_charge / calculate_folding_energy,
      MolecularContainer.get_charge_profile / get_pi / get_folding_profile (optimum, 80 % range, stability range)
    on top of the GENERATED per-group functions of gen/GroupGen.v.
    Tie: correspondence in tools/props/c09.py, c10.py (float instance, bit for bit, 10**x / log10 from a table
@@ -10,21 +10,13 @@ Import ListNotations.
 
 Section Models.
 Context {F : Type} {N : Num F}.
-Definition zero : F := nlit 0 1.
-
-(* def make_grid(min_, max_, step): x = min_; while x <= max_: yield x; x += step       (None = out of fuel) *)
-Fixpoint make_grid (fuel : nat) (x max_ step : F) : option (list F) :=
-  match fuel with
-  | O => None
-  | S f => if nleb x max_ then match make_grid f (nadd x step) max_ step with Some l => Some (x :: l) | None => None end
-           else Some []
-  end.
+Definition fzero : F := nlit 0 1.
 
 (* for group in self.get_titratable_groups(): unfolded += ...; folded += ...;  return unfolded, folded *)
 Definition total_charge (gs : list (grp F)) (ph : F) : F * F :=
   fold_left (fun (acc : F * F) g => let '(u, f) := acc in
                (nadd u (calculate_charge_unfolded g ph), nadd f (calculate_charge_folded g ph)))
-            (filter (fun g => grp_titratable g) gs) (zero, zero).
+            (filter (fun g => grp_titratable g) gs) (fzero, fzero).
 
 (* charge_profile.append([ph, q_unfolded, q_folded]) for ph in make_grid(grid...) *)
 Definition charge_profile (gs : list (grp F)) (grid : list F) : list (F * F * F) :=
@@ -37,7 +29,7 @@ Fixpoint pi (Q : F -> F) (prec : F) (fuel : nat) (pH lo hi : F) : option F :=
   | S f =>
     let charge := Q pH in
     if nltb prec (nsub hi lo) then
-      if nltb zero charge then pi Q prec f (ndiv (nadd pH hi) (nlit 2 1)) pH hi
+      if nltb fzero charge then pi Q prec f (ndiv (nadd pH hi) (nlit 2 1)) pH hi
       else pi Q prec f (ndiv (nadd lo pH) (nlit 2 1)) lo pH
     else Some pH
   end.
@@ -52,9 +44,9 @@ Definition get_pi (gs : list (grp F)) (g0 g1 prec : F) (fuel : nat) : option F *
 (* a group together with the values of its coulomb determinants *)
 Definition gdet := (grp F * list F)%type.
 Definition folding_energy_neutral (p : params F) (gs : list gdet) (ph : F) : F :=
-  fold_left (fun ddg (g : gdet) => nadd ddg (calculate_folding_energy_neutral (fst g) p ph (snd g))) gs zero.
+  fold_left (fun ddg (g : gdet) => nadd ddg (calculate_folding_energy_neutral (fst g) p ph (snd g))) gs fzero.
 Definition folding_energy_lowph (p : params F) (gs : list gdet) (ph : F) : F :=
-  fold_left (fun ddg (g : gdet) => nadd ddg (calculate_folding_energy_lowph (fst g) p ph (snd g))) gs zero.
+  fold_left (fun ddg (g : gdet) => nadd ddg (calculate_folding_energy_lowph (fst g) p ph (snd g))) gs fzero.
 
 (* opt = (None, 1e6); for point in profile: opt = min(opt, point, key=lambda v: v[1])   (first minimum wins) *)
 Definition opt_step (opt : option F * F) (pt : F * F) : option F * F :=
@@ -71,5 +63,5 @@ Definition range_80pct (profile : list (F * F)) : option F * option F :=
   let opt := optimum profile in
   range_of (map fst (filter (fun p => nltb (snd p) (nmul (nlit 8 10) (snd opt))) profile)).
 Definition stability_range (profile : list (F * F)) : option F * option F :=
-  range_of (map fst (filter (fun p => nltb (snd p) zero) profile)).
+  range_of (map fst (filter (fun p => nltb (snd p) fzero) profile)).
 End Models.
